@@ -54,7 +54,7 @@ func main() {
 		name string
 		f    func()
 	}{
-		{"probes", h.probes}, {"registration", h.registrationTie}, {"schemaversion", h.svCorrespondence},
+		{"probes", h.probes}, {"registration", h.registrationTie}, {"ondisk", h.onDiskFormat}, {"schemaversion", h.svCorrespondence},
 		{"pipeline", h.pipeAll}, {"runner", h.runnerAll}, {"blocktx", h.blockTxAll}, {"upgrade", h.fullAll},
 		{"headstate", h.headstateFamily}, {"statedifflength", h.sdlFamily}, {"blocktx-writefail", h.blockTxWriteFailures}, {"blocktx-readfault", h.blockTxReadFaults},
 	}
